@@ -292,3 +292,211 @@ Proof.
   - split; vm_compute; reflexivity.
 Qed.
 Print Assumptions c04_keep_real_inhabited.
+
+(* ================================================================================================
+   -j ON A TABLE LINE  (Proofs/SetupFrameJ.v).  A line  setupRequired(foo -j)  reaches foo and nothing below foo:
+   [touches_j b name k] follows a -j line with the budget 0.  The frame theorem holds with this finer relation -
+   for a setup, and equally for an unsetup or the replacement of a version (the -j of the line limits the unsetup
+   of the owner's dependencies too): the dependencies of foo that the owner does not list itself keep their records,
+   directory variables, table variables and path elements, whatever the request does to the owner.
+   ================================================================================================ *)
+From Eupsv Require Import Proofs.SetupFrameJ.
+
+Theorem setup_changes_only_what_it_reaches_j w cfg dl fuel :
+  WF w dl -> fn_ok_j w cfg dl (setup w cfg fuel).
+Proof. intro H. exact (setup_frame_j w cfg dl H fuel). Qed.
+Print Assumptions setup_changes_only_what_it_reaches_j.
+
+(* below a -j line: the product itself and nothing else *)
+Theorem just_line_reaches_the_product_only w n k : touches_j w (Some 0) n k -> k = n.
+Proof. exact (touches_j_zero w n k). Qed.
+Print Assumptions just_line_reaches_the_product_only.
+
+(* the finer reach is within the coarser one (so every statement about what is NOT touched got stronger) *)
+Theorem reach_with_just_lines_is_within_reach w b n k : touches_j w b n k -> touches w b n k.
+Proof. exact (touches_j_touches w b n k). Qed.
+Print Assumptions reach_with_just_lines_is_within_reach.
+
+Theorem bystanders_untouched_j w cfg dl fuel st ds name fwd just ok st' ds' k :
+  WF w dl -> nodollar_paths w (s_env st) ->
+  setup w cfg fuel st ds name fwd 0 just = RDone ok st' ds' ->
+  ~ path_var w k -> (forall n, touches_j w (levels cfg 0 just) name n -> ~ own_var w n k) ->
+  alookup k (s_env st') = alookup k (s_env st).
+Proof.
+  intros Hwf Hnd Hrun Hk Hown.
+  pose proof (setup_frame_j w cfg dl Hwf fuel st ds name fwd 0 just Hnd) as G.
+  assert (Hd : depth_ok cfg 0) by (unfold depth_ok; destruct (c_max_depth cfg); lia).
+  specialize (G Hd). rewrite Hrun in G. destruct G as [[V _] _]. now apply V.
+Qed.
+Print Assumptions bystanders_untouched_j.
+
+Theorem bystanders_path_elements_untouched_j w cfg dl fuel st ds name fwd just ok st' ds' var keep :
+  WF w dl -> nodollar_paths w (s_env st) ->
+  setup w cfg fuel st ds name fwd 0 just = RDone ok st' ds' ->
+  path_var w var ->
+  (forall n v, touches_j w (levels cfg 0 just) name n -> own_elem w n var v -> keep v = false) ->
+  uniq (filter keep (elems (dl var) (oldv var (s_env st')))) =
+  uniq (filter keep (elems (dl var) (oldv var (s_env st)))).
+Proof.
+  intros Hwf Hnd Hrun Hv Hkeep.
+  pose proof (setup_frame_j w cfg dl Hwf fuel st ds name fwd 0 just Hnd) as G.
+  assert (Hd : depth_ok cfg 0) by (unfold depth_ok; destruct (c_max_depth cfg); lia).
+  specialize (G Hd). rewrite Hrun in G. destruct G as [[_ P] _]. now apply P.
+Qed.
+Print Assumptions bystanders_path_elements_untouched_j.
+
+(* names in a prefix relation (afw / afwdata): what the unsetup of a product forgets are exactly the three variables
+   AFW_DIR, SETUP_AFW, AFW_DIR_EXTRA - every other variable, SETUP_AFWDATA and AFW_DIRS included, is as it was *)
+Theorem unsetup_forgets_exactly_three_variables st name k :
+  k <> dir_var name -> k <> setup_var name -> k <> extra_var name ->
+  alookup k (s_env (unset_product_vars st name)) = alookup k (s_env st).
+Proof.
+  intros H1 H2 H3. unfold unset_product_vars, unset_env. cbn [s_env].
+  now rewrite !alookup_aremove_other.
+Qed.
+Print Assumptions unsetup_forgets_exactly_three_variables.
+
+Example prefix_names_have_different_records :
+  setup_var (lit "afwdata") <> setup_var (lit "afw") /\ setup_var (lit "afwdata") <> dir_var (lit "afw") /\
+  setup_var (lit "afwdata") <> extra_var (lit "afw") /\ lit "AFW_DIRS" <> extra_var (lit "afw") /\
+  lit "AFW_DIRS" <> dir_var (lit "afw").
+Proof. repeat split; intro E; vm_compute in E; discriminate E. Qed.
+
+(* inhabited, on the shape that matters: top 1.0 says setupRequired(foo -j); foo 1.0 requires dd; dd was set up on
+   its own.  setup top sets foo up alone; unsetup top takes top and foo away and leaves dd exactly as it was - dd
+   is not within the reach of top (touches_j), although it is within the coarser reach (touches).  Names in a
+   prefix relation ride along: foodata is a bystander whose name begins with the name of foo; its record
+   SETUP_FOODATA is not one of the three variables the unsetup of foo removes. *)
+Definition jx_colon : ascii := ":"%char.
+Definition jx_prod (n v : string) (acts : list action) : product :=
+  {| p_name := lit n; p_version := lit v; p_dir := lit "/s/" ++ lit n ++ lit "/" ++ lit v;
+     p_actions := APath false (lit "PATH") (lit "/s/" ++ lit n ++ lit "/" ++ lit v ++ lit "/bin") jx_colon :: acts |}.
+Arguments jx_prod (n v)%string acts.
+Definition jx_world : world :=
+  [ jx_prod "dd" "1.0" []; jx_prod "foodata" "1.0" [];
+    jx_prod "foo" "1.0" [ASetup false (lit "dd") false];
+    jx_prod "top" "1.0" [ASetup false (lit "foo") true] ].
+Definition jx_cfg : Setup.config :=
+  {| c_flavor := lit "Linux64"; c_root := lit "/s"; c_max_depth := None; c_keep := false; c_flavors := [] |}.
+Definition jx_st0 : state := {| s_env := [(lit "PATH", lit "/usr/bin")]; s_aliases := [] |}.
+
+Example just_line_inhabited :
+  exists st1 st2 st3 st4,
+    setup jx_world jx_cfg 10 jx_st0 [Some (lit "1.0")] (lit "dd") true 0 false = RDone true st1 [] /\
+    setup jx_world jx_cfg 10 st1 [Some (lit "1.0")] (lit "foodata") true 0 false = RDone true st2 [] /\
+    setup jx_world jx_cfg 10 st2 [Some (lit "1.0"); Some (lit "1.0")] (lit "top") true 0 false = RDone true st3 [] /\
+    setup jx_world jx_cfg 10 st3 [] (lit "top") false 0 false = RDone true st4 [] /\
+    alookup (lit "SETUP_FOO") (s_env st3) = Some (lit "foo 1.0 -f Linux64 -Z /s") /\
+    s_env st4 = s_env st2 /\
+    alookup (lit "SETUP_DD") (s_env st4) = Some (lit "dd 1.0 -f Linux64 -Z /s") /\
+    alookup (lit "SETUP_FOODATA") (s_env st4) = Some (lit "foodata 1.0 -f Linux64 -Z /s") /\
+    touches jx_world None (lit "top") (lit "dd") /\
+    ~ touches_j jx_world None (lit "top") (lit "dd").
+Proof.
+  eexists. eexists. eexists. eexists.
+  split; [vm_compute; reflexivity|]. split; [vm_compute; reflexivity|]. split; [vm_compute; reflexivity|].
+  split; [vm_compute; reflexivity|]. split; [vm_compute; reflexivity|]. split; [vm_compute; reflexivity|].
+  split; [vm_compute; reflexivity|]. split; [vm_compute; reflexivity|]. split.
+  - apply (t_dep jx_world None (lit "top") (lit "foo") (lit "dd") I).
+    + exists (jx_prod "top" "1.0" [ASetup false (lit "foo") true]), false, true. split; [split; [cbn; tauto|reflexivity]|cbn; tauto].
+    + apply (t_dep jx_world None (lit "foo") (lit "dd") (lit "dd") I); [|constructor].
+      exists (jx_prod "foo" "1.0" [ASetup false (lit "dd") false]), false, false. split; [split; [cbn; tauto|reflexivity]|cbn; tauto].
+  - intros T. inversion T as [|b n m j k Hp [p [o [[Hin Hn] Ha]]] Ht]; subst.
+    cbn in Hin. destruct Hin as [<-|[<-|[<-|[<-|[]]]]]; try discriminate Hn.
+    cbn in Ha. destruct Ha as [Ha|[Ha|[]]]; [discriminate Ha|]. injection Ha as _ <- <-.
+    apply touches_j_zero in Ht. discriminate Ht.
+Qed.
+Print Assumptions just_line_inhabited.
+
+(* ================================================================================================
+   SEVERAL STACKS ON EUPS_PATH  (Model/SetupMS.v; see the section of the same title in Props/C01.v)
+   The frame is stated over product NAMES: a name owns what any of its declarations, in any stack, contributes.
+   ================================================================================================ *)
+From Eupsv Require Import Model.SetupMS Proofs.SetupMSFrame Proofs.SetupMSInv Proofs.SetupMSStack
+     Model.SetupMSWf Proofs.SetupMSWf.
+
+Theorem ms_setup_changes_only_what_it_reaches w cfg dl fuel :
+  SetupMSFrame.WF w dl -> SetupMSFrame.fn_ok w cfg dl (msetup w cfg fuel).
+Proof. intro H. exact (SetupMSFrame.setup_frame w cfg dl H fuel). Qed.
+Print Assumptions ms_setup_changes_only_what_it_reaches.
+
+Theorem ms_just_touches_only_the_product w n k : SetupMSFrame.touches w (Some 0) n k -> k = n.
+Proof.
+  intro H. inversion H as [|b n' m k' Hp He Ht]; subst; [reflexivity|]. simpl in Hp. lia.
+Qed.
+Print Assumptions ms_just_touches_only_the_product.
+
+Inductive ms_within (w : mworld) : nat -> str -> str -> Prop :=
+| ms_within_self j n : ms_within w j n n
+| ms_within_step j n m k : SetupMSFrame.dep_edge w n m -> ms_within w j m k -> ms_within w (S j) n k.
+
+Theorem ms_max_depth_bounds_reach w N n k : SetupMSFrame.touches w (Some N) n k -> ms_within w N n k.
+Proof.
+  revert n k. induction N as [|N IH]; intros n k H.
+  - apply ms_just_touches_only_the_product in H. subst. constructor.
+  - inversion H as [|b n' m k' Hp He Ht]; subst; [constructor|].
+    apply (ms_within_step w N n m k He). apply IH. exact Ht.
+Qed.
+Print Assumptions ms_max_depth_bounds_reach.
+
+(* bystanders: the record (version AND stack), the directory variable and every other variable of a product that is
+   not touched are exactly as before *)
+Theorem ms_bystanders_untouched w cfg dl fuel st ds name fwd just ok st' ds' k :
+  SetupMSFrame.WF w dl -> SetupMSFrame.nodollar_paths w (s_env st) ->
+  msetup w cfg fuel st ds name fwd 0 just = MDone ok st' ds' ->
+  ~ SetupMSFrame.path_var w k ->
+  (forall n, SetupMSFrame.touches w (SetupMSFrame.levels cfg 0 just) name n -> ~ SetupMSFrame.own_var w n k) ->
+  alookup k (s_env st') = alookup k (s_env st).
+Proof.
+  intros Hwf Hnd Hrun Hk Hown.
+  pose proof (SetupMSFrame.setup_frame w cfg dl Hwf fuel st ds name fwd 0 just Hnd) as G.
+  assert (Hd : SetupMSFrame.depth_ok cfg 0) by (unfold SetupMSFrame.depth_ok; destruct (c_max_depth cfg); lia).
+  specialize (G Hd). rewrite Hrun in G. destruct G as [[V _] _]. now apply V.
+Qed.
+Print Assumptions ms_bystanders_untouched.
+
+Theorem ms_bystanders_path_elements_untouched w cfg dl fuel st ds name fwd just ok st' ds' var keep :
+  SetupMSFrame.WF w dl -> SetupMSFrame.nodollar_paths w (s_env st) ->
+  msetup w cfg fuel st ds name fwd 0 just = MDone ok st' ds' ->
+  SetupMSFrame.path_var w var ->
+  (forall n v, SetupMSFrame.touches w (SetupMSFrame.levels cfg 0 just) name n -> SetupMSFrame.own_elem w n var v -> keep v = false) ->
+  uniq (filter keep (elems (dl var) (oldv var (s_env st')))) =
+  uniq (filter keep (elems (dl var) (oldv var (s_env st)))).
+Proof.
+  intros Hwf Hnd Hrun Hv Hkeep.
+  pose proof (SetupMSFrame.setup_frame w cfg dl Hwf fuel st ds name fwd 0 just Hnd) as G.
+  assert (Hd : SetupMSFrame.depth_ok cfg 0) by (unfold SetupMSFrame.depth_ok; destruct (c_max_depth cfg); lia).
+  specialize (G Hd). rewrite Hrun in G. destruct G as [[_ P] _]. now apply P.
+Qed.
+Print Assumptions ms_bystanders_path_elements_untouched.
+
+(* --keep, the setup side, with stacks: when the decision for a dependency names the version the environment records -
+   in the recorded stack OR IN ANOTHER ONE - the call returns without touching anything: the product keeps its
+   version and the stack it was set up from *)
+Theorem ms_keep_retains_partial_setup w cfg rec st ds name depth just sp p k :
+  mfind_setup_product w (c_flavor cfg) (s_env st) name = Some sp -> nonempty (mp_version sp) = true ->
+  find_pvr w name k = Some p -> mp_version p = mp_version sp ->
+  msetup_step w cfg rec st (Some k :: ds) name true (S depth) just = MDone true st ds.
+Proof.
+  intros Hs Hne Hf Hv. unfold msetup_step. rewrite Hf, Hs. unfold msame_product.
+  rewrite Hv, Hne, str_eqb_refl. reflexivity.
+Qed.
+Print Assumptions ms_keep_retains_partial_setup.
+
+(* ---- inhabited: ms_world (Proofs/SetupMSStack.v).  lib 1.0 is set up from the second stack (ms_stB); setup app with
+   the decisions app 1.0 (first stack) and lib 1.0 of the FIRST stack ends in ms_stApp: SETUP_LIB, LIB_DIR and LIB_STACK
+   are what they were (the second stack's), and ms_keep_retains_partial_setup is the step that returns at once. *)
+Example ms_c04_inhabited :
+  SetupMSFrame.WF ms_world (mdl_of ms_world) /\
+  msetup ms_world ms_cfg 3 ms_stB [Some (key_of ms_app); Some (key_of ms_libA)] (lit "app") true 0 false
+    = MDone true ms_stApp [] /\
+  alookup (setup_var (lit "lib")) (s_env ms_stApp) = alookup (setup_var (lit "lib")) (s_env ms_stB) /\
+  alookup (lit "LIB_STACK") (s_env ms_stApp) = Some (lit "/s B/ups_db/x") /\
+  msetup_step ms_world ms_cfg (msetup ms_world ms_cfg 2) ms_stB [Some (key_of ms_libA)] (lit "lib") true 1 false
+    = MDone true ms_stB [].
+Proof.
+  split; [apply (SetupMSWf.wf_check_sound ms_world ms_order); vm_compute; reflexivity|].
+  split; [vm_compute; reflexivity|]. split; [vm_compute; reflexivity|]. split; [vm_compute; reflexivity|].
+  apply (ms_keep_retains_partial_setup ms_world ms_cfg _ ms_stB [] (lit "lib") 0 false ms_libB ms_libA); vm_compute; reflexivity.
+Qed.
+Print Assumptions ms_c04_inhabited.
